@@ -1,7 +1,7 @@
 (* C10 -- A script parses to the concatenation of its statements.  Statements only.
    Model: Parse/Model.v statements_loop (SQLParser.parse_statements: loop { statement ; optional ';' } then close). *)
 From Coq Require Import List NArith ZArith Bool String Ascii Lia.
-Require Import Base.Common Gen.LexTable Lex.Model Cur.Model Tree.Value Gen.Static Parse.Prim Parse.Model Parse.LoopProofs Parse.ScriptFacts Parse.Extend.
+Require Import Base.Common Gen.LexTable Lex.Model Cur.Model Tree.Value Gen.Static Parse.Prim Parse.Model Parse.LoopProofs Parse.ScriptFacts Parse.Extend Lex.Compose Tree.Canon Parse.Entry Parse.TextScript.
 Import ListNotations.
 Open Scope string_scope.
 Open Scope list_scope.
@@ -72,6 +72,31 @@ Proof. intros d. repeat (apply Forall_cons; [destruct d; vm_compute; reflexivity
 Example C10_create_block_is_a_tree : match run 30 F_statement D_MYSQL None create_block with Ok (VNode _ _, []) => True | _ => False end.
 Proof. vm_compute. exact I. Qed.
 
+(* 7. The lexer side (Lex/Compose.v): a ';' between two texts is lexed as a token of its own between their token lists - for both shipped
+   lexers and all 8 flag settings - unless the first text ends inside a line comment, where the ';' belongs to the comment.  (Finite
+   certificate on the regenerated tables: wherever the end of input is accepted, ';' acts as the end of input followed by the token ';'.) *)
+Theorem C10_lexer_semicolon :
+  forall mb (f : nat) s1 s2 t1 t2, (f < 8)%nat ->
+    lex mb f s1 = Ok t1 -> lex mb f s2 = Ok t2 -> ends_in_line_comment mb f s1 = false ->
+    lex mb f (s1 ++ 59%N :: s2) = Ok (t1 ++ semi :: t2).
+Proof. intros mb f s1 s2 t1 t2 Hf H1 H2 Hc. exact (lex_semicolon mb f s1 s2 t1 t2 Hf H1 H2 Hc). Qed.
+
+(* 8. C10 for TEXTS, end to end through the lexer model, the parser model and the canonical dump that is compared with the implementation:
+   statement texts that each lex and parse completely on their own and do not end inside a line comment, written one after the other with
+   ';' between them and optionally one at the end, parse to exactly their stand-alone trees - any number of statements, every dialect
+   without a text-level pre-pass (all but Hive and DB2, whose str.replace shims are outside this theorem). *)
+Theorem C10_text_script :
+  forall d items final, (forall s, dialect_prepass d s = s) -> Forall (text_ok d) items ->
+    parse_text false "statements" d (script_text (map ti_text items) final) = Ok (canon (VList (map ti_val items))).
+Proof. intros d items final Hp H. exact (text_script d items final Hp H). Qed.
+
+Definition ti_of (d : sqltype) (s : string) : titem :=
+  let ts := match lex false 7 (S s) with Ok t => t | Err _ => [] end in mkti (S s) ts (val_of (fuel_for ts) d ts).
+Example C10_texts_exist :
+  Forall (text_ok D_MYSQL) [ti_of D_MYSQL "CREATE TABLE t (a INT, b VARCHAR(10)) ENGINE=InnoDB"; ti_of D_MYSQL "SELECT a, b FROM t WHERE a = 1 -- c
+"; ti_of D_MYSQL "USE db1"] /\ (forall s, dialect_prepass D_MYSQL s = s).
+Proof. split; [|reflexivity]. repeat (apply Forall_cons; [vm_compute; repeat split; reflexivity|]). apply Forall_nil. Qed.
+
 Print Assumptions C10_script_is_concatenation.
 Print Assumptions C10_standalone.
 Print Assumptions C10_items_exist.
@@ -80,3 +105,6 @@ Print Assumptions C10_no_lookahead_past_separator.
 Print Assumptions C10_statement_and_separator.
 Print Assumptions C10_script_of_standalone_statements.
 Print Assumptions C10_standalone_items_exist.
+Print Assumptions C10_lexer_semicolon.
+Print Assumptions C10_text_script.
+Print Assumptions C10_texts_exist.
